@@ -2,6 +2,7 @@ package exec
 
 import (
 	"fmt"
+	"os"
 	"go/token"
 	"go/types"
 	"strings"
@@ -115,6 +116,15 @@ func (fr *frame) get(key ssa.Value) Value {
 }
 
 func (e *Exec) constValue(c *ssa.Const) Value {
+	if v, ok := e.constCache[c]; ok {
+		return v
+	}
+	v := e.constValue1(c)
+	e.constCache[c] = v
+	return v
+}
+
+func (e *Exec) constValue1(c *ssa.Const) Value {
 	if c.Value == nil {
 		return e.zero(c.Type())
 	}
@@ -462,7 +472,7 @@ func (e *Exec) callValue(fn Value, args ...Value) Value {
 
 func (e *Exec) callSSA(caller *frame, callpos token.Pos, fn *ssa.Function, args []Value, env []Value) Value {
 	e.steps++
-	if e.lenient > 0 && fn.Synthetic == "package initializer" && caller != nil {
+	if e.lenient > 0 && fn.Synthetic == "package initializer" && fn != e.curInit {
 		return nil // imported packages are initialised lazily
 	}
 	if fn.Parent() == nil {
@@ -592,9 +602,15 @@ func (e *Exec) visitLenient(fr *frame, instr ssa.Instruction) (k continuation) {
 					k = kNext
 					return
 				}
+				if os.Getenv("SYMGO_DEBUG_INIT") != "" {
+					fmt.Fprintf(os.Stderr, "lenient abort: %s in %s: %v\n", instr, fr.fn, clip(fmt.Sprint(r), 300))
+				}
 				panic(lenientFail{fmt.Sprint(r)})
 			}
 			fr.env[v] = Poison{Why: clip(fmt.Sprint(r), 200)}
+			if os.Getenv("SYMGO_DEBUG_INIT") != "" {
+				fmt.Fprintf(os.Stderr, "lenient: %s in %s: %v\n", instr, fr.fn, clip(fmt.Sprint(r), 300))
+			}
 			k = kNext
 		}
 	}()
@@ -713,9 +729,15 @@ func (e *Exec) runInit(pkg *ssa.Package) {
 	if g, ok := pkg.Members["init$guard"].(*ssa.Global); ok {
 		*e.globals[g] = e.c.False
 	}
+	if os.Getenv("SYMGO_DEBUG_INIT") != "" {
+		fmt.Fprintf(os.Stderr, "init %s\n", pkg.Pkg.Path())
+	}
 	e.lenient++
 	savedSteps := e.steps
+	savedInit := e.curInit
+	e.curInit = initFn
 	defer func() {
+		e.curInit = savedInit
 		e.lenient--
 		e.steps = savedSteps // initialisation does not count against the path budget
 		if r := recover(); r != nil {
